@@ -166,6 +166,7 @@ fn run_opts(rng: &mut Rng, prog: &Program) -> RunOpts {
         pre_run_probes: true,
         default_queue: false,
         paused_past_probes: false,
+        finish_after_steps: false,
     }
 }
 
@@ -222,7 +223,7 @@ pub fn cmd_c02(args: &Args) -> Report {
         // steps an insertion just below the reported time is rejected
         if clean && i % 3 == 0 && !out.log.is_empty() {
             let mut prog2 = prog.clone();
-            let steps = random_schedule(&mut rng, &mut prog2, &out.log, false);
+            let steps = random_schedule(&mut rng, &mut prog2, &out.log, i % 2 == 0);
             opts.paused_past_probes = true;
             let out2 = real_run(&prog2, Mode::Steps(&steps), &opts);
             rep.count("stepped_runs", 1);
@@ -483,7 +484,7 @@ pub fn cmd_c10(args: &Args) -> Report {
         let size = if small { 1 + rng.usize_below(7) } else { 2 + rng.usize_below(max_events) };
         let (tie_heavy, nonzero_start) = (rng.chance(2, 3), rng.chance(1, 4));
         let prog = gen_program(&mut rng, GenOpts { max_events: size, tie_heavy, past_attempts: false, nonzero_start, small_n: false });
-        let opts = RunOpts { walk_every: if prog.n <= 32 { 2 } else { 0 }, pre_run_probes: false, default_queue: false, paused_past_probes: false };
+        let opts = RunOpts { walk_every: if prog.n <= 32 { 2 } else { 0 }, pre_run_probes: false, default_queue: false, paused_past_probes: false, finish_after_steps: false };
         vcommon::mark_case(&format!("c10:{}:{}:{}", args.seed, args.shard, i));
         let base = real_run(&prog, Mode::Run, &opts);
         rep.eval();
@@ -686,7 +687,7 @@ pub fn cmd_c11(args: &Args) -> Report {
         let size = if small { 1 + rng.usize_below(30) } else { 2 + rng.usize_below(max_events) };
         let (tie_heavy, nonzero_start) = (rng.chance(1, 2), rng.chance(1, 4));
         let prog = gen_program(&mut rng, GenOpts { max_events: size, tie_heavy, past_attempts: false, nonzero_start, small_n: false });
-        let opts = RunOpts { walk_every: if prog.n <= 32 { 3 } else { 0 }, pre_run_probes: false, default_queue: false, paused_past_probes: false };
+        let opts = RunOpts { walk_every: if prog.n <= 32 { 3 } else { 0 }, pre_run_probes: false, default_queue: false, paused_past_probes: false, finish_after_steps: false };
         vcommon::mark_case(&format!("c11:{}:{}:{}", args.seed, args.shard, i));
         let base = real_run(&prog, Mode::Run, &opts);
         rep.eval();
@@ -764,6 +765,23 @@ pub fn cmd_c11(args: &Args) -> Report {
             if !report(&mut rep, "C11", findings, &case) {
                 break 'cases;
             }
+            // the same single limit through the stepping interface: start, one step, finish
+            let step = match calls.as_slice() {
+                [LimitCall::MaxItr(n)] => Some(Step::N(*n)),
+                [LimitCall::MaxTime(t)] if *t >= prog.start_ns => Some(Step::Until(*t)),
+                _ => None,
+            };
+            if let Some(step) = step {
+                let steps = [step];
+                let sopts = RunOpts { finish_after_steps: true, ..RunOpts { walk_every: opts.walk_every, pre_run_probes: false, default_queue: false, paused_past_probes: false, finish_after_steps: true } };
+                let out = real_run(&prog, Mode::Steps(&steps), &sopts);
+                rep.count("limits_applied_through_one_step_and_finish", 1);
+                let findings = check_c11(&prog, &calls, &out, e);
+                let case = case_json("c11", &prog, json!({"limit_calls": serde_json::to_value(&calls).unwrap(), "steps": serde_json::to_value(&steps).unwrap(), "finish_after_steps": true}));
+                if !report(&mut rep, "C11", findings, &case) {
+                    break 'cases;
+                }
+            }
         }
     }
     rep
@@ -790,6 +808,7 @@ pub fn replay(case: &Value) -> i32 {
         pre_run_probes: true,
         default_queue: mode.pointer("/run/default_queue").and_then(Value::as_bool).unwrap_or(false),
         paused_past_probes: mode.get("past_probes").and_then(Value::as_bool).unwrap_or(false),
+        finish_after_steps: mode.get("finish_after_steps").and_then(Value::as_bool).unwrap_or(false),
     };
     let sub = case.get("sub").and_then(Value::as_str).unwrap_or("");
     println!("program: {}", serde_json::to_string(&prog).unwrap());
@@ -805,6 +824,10 @@ pub fn replay(case: &Value) -> i32 {
         println!("stepped trace: {:?}\npaused observations: {:?}", out.log, out.steps);
         if sub == "c02" {
             check_c02(&prog, &out, true)
+        } else if sub == "c11" {
+            let calls: Vec<LimitCall> = serde_json::from_value(mode.get("limit_calls").expect("limit calls").clone()).expect("limit calls");
+            let unlimited = real_run(&prog, Mode::Run, &RunOpts { finish_after_steps: false, ..opts });
+            check_c11(&prog, &calls, &out, &unlimited.log)
         } else {
             check_c10(&prog, &steps, &out, base.as_deref())
         }
